@@ -12,7 +12,9 @@ ORACLE_LIKE = ('prec', 'tostr')      # a model mismatch here is a printed text o
 MANIFEST = {'technique': 'Coq proof (acceptance set of as_number = CIF number grammar, integer readers = strtol, buffer bounds, nearest-even rounding) + three-way differential check on IEEE bit patterns (gemmi / extracted model / glibc) under two locales', 'text': 'Theorems: for every string and every digit-to-double conversion, cif::as_number returns the conversion of the CIF decimal value exactly when the string is a CIF number (with optional s.u.) and NaN otherwise (snapshot behaviour refuted: "+-1", "1.5()"); string_to_int / read_int / simple_atoi / no_sign_atoi equal strtol on every string they accept; the repaired (unsigned-accumulating) readers return, for EVERY string with no size precondition, the unbounded value wrapped to 32 bits (the signed accumulation of the snapshot is refuted on 4294967295); to_str_prec<P> fits its buffer for P <= 6, |d| < 1e8 (16 bytes refuted for P = 6); the reference rounding is round-to-nearest-even (half-ulp bound _partial). Three-way comparison of gemmi, the extracted model and glibc strtod/strtol on bit patterns over grammar-derived strings, near misses, halfway cases, subnormals, overflow, in the C locale and in a generated comma-decimal locale; print->parse half-unit oracle for to_str/to_str_prec; snprintf_z contract.', 'note': 'Trusted: Coq kernel; extraction; harness. No axioms. fast_float digit conversion and stb_sprintf digit generation are not modelled (as_number theorems quantify over every conversion; the executable model is compared with glibc). Strings shorter than 2^28 bytes.'}
 
 def near_tie_excess(cmd, args, impl_hex):
-    """True when the printed decimal misses the half-unit bound by less than 1e-9 of a unit (exact arithmetic)."""
+    """True when the printed decimal misses the half-unit bound by at most 2^-57 of the value (1/16 of the spacing of
+    doubles at that value), in exact arithmetic: the value is then closer to a rounding tie than the accuracy of
+    stb_sprintf's digit generator, which is the recorded finding C12-stb-near-tie (one call site, any such value)."""
     from fractions import Fraction
     import struct
     try:
@@ -41,7 +43,7 @@ def near_tie_excess(cmd, args, impl_hex):
                 e10 -= 1
             unit = Fraction(10) ** (e10 - sig + 1)
         err = abs(printed - val)
-        return unit / 2 < err <= unit / 2 * (1 + Fraction(1, 10 ** 9))
+        return unit / 2 < err <= unit / 2 + abs(val) * Fraction(1, 2 ** 57)
     except Exception:
         return False
 
@@ -114,7 +116,7 @@ def gen_lines(rng, n_num, n_int, n_print, bufs):
         lines.append('asint\t' + F.hx(s))
         lines.append('sti\t%s 1 0' % F.hx(s))
     # printing (the first value is the recorded witness of the stb_sprintf near-tie finding, see known_findings.json)
-    for b in [0xc0eb0b728a0902de] + list(F.gen_print_doubles(rng, n_print)):
+    for b in [0xc0eb0b728a0902de, 0x4069b7c38194c016] + list(F.gen_print_doubles(rng, n_print)):
         bh = '%016x' % b
         d = F.bits2d(b)
         lines.append('tostr\td ' + bh)
@@ -229,7 +231,7 @@ def run(chk):
                         # stb_sprintf rounds from an approximation: a value within ~1e-12 (relative) of a rounding tie
                         # can be printed on the wrong side. One class of finding, whatever the value.
                         chk.violate('oracle', 'C12 stb_sprintf near-tie double rounding (printed text beyond half a unit of '
-                                    'the last digit by less than 1e-9 unit)', 'first instance: %s %s impl=%s (locale %s)' % (cmd, args, impl, lname),
+                                    'the last digit by at most 2^-57 of the value)', 'first instance: %s %s impl=%s (locale %s)' % (cmd, args, impl, lname),
                                     replay={'harness': 'h_num', 'line': cmd + '\t' + args, 'locale': lname})
                         continue
                     chk.violate('oracle', 'C12 printed text of %s %s is not within half a unit of the last digit '
